@@ -199,6 +199,9 @@ func (c *gateConn) Close() error {
 	}
 	c.closed = true
 	w := c.waiting
+	// the write parked in the gate ends with the connection: it is no longer "waiting" from this instant on, whenever its
+	// goroutine gets to run (a snapshot or a Read step in between must not see it)
+	c.waiting = nil
 	close(c.closedCh)
 	c.mu.Unlock()
 	c.rcond.Broadcast()
